@@ -114,6 +114,39 @@ def gen_assembly(rs: Stream, opts: Dict[str, Any]) -> Dict[str, Any]:
     return {"points": points, "blocks": blocks, "curved": {}, "chops": []}
 
 
+def gen_pie(rs: Stream) -> Dict[str, Any]:
+    """k kite-shaped sectors around one axis: the axis edge is shared by every block (an edge may be
+    shared by any number of blocks, not only the four of a lattice), every radial face by two."""
+    k = rs.weighted([(3, 2), (4, 2), (5, 2), (6, 2), (8, 2), (12, 1), (19, 1), (20, 2), (22, 1), (24, 2)])
+    m = k + (rs.pick([1, 2, 3]) if rs.chance(0.3) else 0)  # a full circle, or part of one
+    m = max(m, 3)
+    h = rs.uniform(0.6, 1.6)
+    origin = [round(rs.uniform(-500, 500), 1) for _ in range(3)] if rs.chance(0.1) else [0.0, 0.0, 0.0]
+    points: Dict[str, List[float]] = {}
+
+    def put(pid, r, ang, z):
+        points[pid] = [round(origin[0] + r * math.cos(ang), 6), round(origin[1] + r * math.sin(ang), 6), round(origin[2] + z, 6)]
+
+    points["ax_0"] = [origin[0], origin[1], origin[2]]
+    points["ax_1"] = [origin[0], origin[1], round(origin[2] + h, 6)]
+    step = 2 * math.pi / m
+    nspoke = k if m == k else k + 1
+    for i in range(nspoke):
+        r = rs.uniform(0.8, 1.2)
+        for lv, z in ((0, 0.0), (1, h)):
+            put(f"p{i}_{lv}", r, i * step, z)
+    for i in range(k):
+        r = rs.uniform(1.5, 1.9)
+        for lv, z in ((0, 0.0), (1, h)):
+            put(f"k{i}_{lv}", r, (i + 0.5) * step, z)
+    blocks = []
+    for i in range(k):
+        j = (i + 1) % nspoke
+        corners = [f"ax_0", f"p{i}_0", f"k{i}_0", f"p{j}_0", f"ax_1", f"p{i}_1", f"k{i}_1", f"p{j}_1"]
+        blocks.append({"name": f"b{i}", "cell": [i, 0, 0], "corners": corners})
+    return {"points": points, "blocks": blocks, "curved": {}, "chops": [], "pie": k}
+
+
 def _edge_len(points, p, q) -> float:
     return models.dist(points[p], points[q])
 
@@ -133,7 +166,8 @@ def place_chops(rs: Stream, geo: Dict[str, Any], opts: Dict[str, Any]) -> Dict[s
         skip = set(rs.shuffled(roots)[:k])
     if category == "conflict":
         if multi_roots:
-            conflict_root = rs.pick(multi_roots)
+            # (sometimes among the families of the blocks created last)
+            conflict_root = rs.pick(multi_roots[-3:]) if rs.chance(0.3) else rs.pick(multi_roots)
         else:
             category = "ok"
     # both kinds at once, sometimes
@@ -536,7 +570,7 @@ def make_program(geo: Dict[str, Any], cfg_seed: int, identity: bool = False) -> 
     if rewrite is not None:
         # the same assembled mesh is written again after some vertices were moved
         for mv in rewrite:
-            ops.append({"op": "move_vertex", "index": mv["index"], "d": mv["d"]})
+            ops.append(dict({"op": "move_vertex", "d": mv["d"]}, **({"point": mv["point"]} if "point" in mv else {"index": mv["index"]})))
         ops.append({"op": "write", "path": DICT_PATH + ".second"})
         if rewrite and geo.get("rewrite_back"):
             # ... and a third time after the vertices were put back exactly where they had been
